@@ -4,16 +4,63 @@ import json, os
 ROOT = os.path.dirname(os.path.abspath(__file__))
 
 E1 = "dsched"; E2 = "seqfuzz"
+def E1c(ref, oracle, note, extra=""):
+    return dict(engine=E1, ref=ref,
+        technique="property-based testing: rapidcheck-generated client programs executed on the real code under a deterministic schedule / clock / weak-memory fuzzer (dsched); oracle = " + oracle,
+        text="Exploration: generated programs (threads x API operations x configurations) run on the unmodified babylon code under schedules, a virtual clock and stale-read choices that the harness owns (random walk, PCT, starve-one-thread; view-based memory model checked by a litmus self-test), judged by an explicit history oracle; failures are shrunk and replayed deterministically. " + extra + "Holds on everything generated; bounded programs, sampled schedules: not a proof.",
+        note=note)
+def E2c(ref, oracle, note, extra=""):
+    return dict(engine=E2, ref=ref,
+        technique="model-based / round-trip fuzzing: libFuzzer (coverage-guided, ASan + UBSan subset) decodes bytes into typed operation sequences or values; oracle = " + oracle,
+        text="Exploration by coverage-guided fuzzing with the semantic oracle inside the target (not only crash detection); the input bytes are decoded constructively so every input is a valid case. " + extra + "Holds on everything generated; not a proof.",
+        note=note)
+def BOTH(ref, oracle, note, extra=""):
+    d = E1c(ref, oracle, note, extra)
+    d["technique"] = "property-based testing and model-based fuzzing: dsched schedule fuzzer (rapidcheck-generated concurrent programs) plus libFuzzer targets (sequential histories, ASan); oracle = " + oracle
+    return d
+
 CLAIMED = {
- "C01": dict(engine=E1, ref="5/C01", technique="property-based testing: rapidcheck-generated client programs run under a deterministic schedule/visibility fuzzer; oracle = exactly-once multiset + FIFO + ownership marks + happens-before check on payload + sequential try_ model",
-   text="Exploration: generated producer/consumer programs over every push/pop variant and flag combination, executed on the real queue under owned schedules (random walk, PCT), a view-based weak-memory model and a virtual clock, with an explicit history oracle. Holds on everything generated; not a proof.",
-   note="Trusts the dsched runtime (scheduler, view model, vector clocks) and the flag pairing rules taken from bounded_queue.h; bounded programs (<=6 threads, <=10 elements per case)."),
- "C02": dict(engine=E1, ref="5/C02", technique="property-based testing: generated balanced blocking programs under an owned scheduler with stale reads; oracle = no deadlock/livelock + virtual-time deadline bound for timed pops",
-   text="Exploration of liveness under a scheduler the harness owns: every generated program is balanced by construction, so a state with no runnable thread and no timer is a lost wake-up. Stale reads make a missing seq_cst fence observable.",
-   note="Trusts the futex model (wait = SC fence + compare + sleep atomically; wake = SC fence + wake) and fairness rules of the scheduler."),
- "C18": dict(engine=E2, ref="5/C18", technique="model-based fuzzing: libFuzzer-decoded operation sequences over hash set/map/fixed table compared with std::unordered_set/map after every step (ASan + UBSan subset)",
-   text="Exploration by coverage-guided fuzzing of operation histories (construct default|n, emplace, find, clear, reserve, rehash, copy, move, swap, iterate, size) with colliding generated hashes; every step is compared with a reference container.",
-   note="Sequential histories only (concurrency is C03); trusts std::unordered_set/map as the reference; the default-constructed fixed table is treated as the documented zero-capacity placeholder."),
+ "C01": E1c("5/C01", "exactly-once multiset + FIFO between ordered operations + slot ownership marks + happens-before check on payload + sequential try_ model + sequential epilogue (clear/swap/reserve)",
+   "Trusts the dsched runtime (scheduler, view model, vector clocks) and the flag pairing rules taken from bounded_queue.h; bounded programs (<=8 threads, <=16 elements per case in quick, 32 in thorough)."),
+ "C02": E1c("5/C02", "no deadlock / livelock for balanced programs + virtual-time deadline bound for timed pops",
+   "Trusts the futex model (wait = SC fence + compare + sleep atomically; wake = SC fence + wake) and the fairness rules of the scheduler; liveness is judged only for programs that are balanced by construction.",
+   "Liveness is attacked by owning the scheduler: a state with no runnable thread and no timer is a lost wake-up; stale reads make a missing seq_cst fence observable. "),
+ "C03": E1c("5/C03", "one winner per key, same element address for every caller, visibility after a returned insertion (real-time in SC mode, happens-before in weak mode), fully constructed elements (Tracked payload), full fixed table keeps its arguments, quiescent size/iteration",
+   "Generated colliding hash (few start groups and 7-bit tags); byte-wise control loads (ABSL_HAVE_THREAD_SANITIZER path) instead of the SIMD group load, which the ASan target C18 exercises."),
+ "C04": E1c("5/C04", "stable addresses, element construct/destroy exactly once (registry), block and block-table lifetime through a quarantining operator new/delete, cooling period measured on the virtual clock (incl. 16-bit timestamp wrap)",
+   "Snapshot use follows the conservative reading of the cooling period (64 s after the begin of the superseding growth call); plain accesses inside babylon are not schedule points."),
+ "C05": BOTH("5/C05", "reference interpreter of the documented demand-driven semantics (values, emptiness, ran-set rule, dependencies ready at invocation, each vertex at most once, published once, wait() covers started vertices, reset())",
+   "Graphs <= 8 vertices built through the public GraphBuilder API; externally injected inputs come from processors (emit is only legal before run or inside process); ill-formed runs only carry the minimal obligations."),
+ "C06": BOTH("5/C06", "alignment, containment in owned memory, pairwise disjoint blocks with canaries, destructors exactly once before memory goes back, every page / oversize block returned exactly once to where it came from with the same size and alignment, zero accounting after release, moved-from owns nothing",
+   "Recording page allocators and std::pmr upstreams are the reference; page sizes are powers of two >= the bookkeeping size babylon asserts."),
+ "C07": E1c("5/C07", "accepted task runs exactly once before stop() returns on a thread for which is_running_in() holds, futures carry the callable's result, refused submissions never run and yield invalid futures, nothing runs after stop()",
+   "Must-run set = tasks whose submit returned before stop() was called (ordered_after) plus their locally spawned children when the spawns fit the local queue; global capacity is sized so that no deadlock is 'by design'."),
+ "C08": E1c("5/C08", "every get() returns the set value, callbacks exactly once and never before the value, then-chains carry f(v), wait_for true => value / false => virtual time elapsed, latch ready exactly at zero",
+   "All timing is virtual; INT64_MAX timeouts excluded (signed overflow in wait_for_slow, noted in DESIGN); both assert-enabled and NDEBUG builds are run."),
+ "C09": E1c("5/C09", "a reader inside a region never dereferences a node that was reclaimed after low_water_mark() passed its tick (poisoning + Tracked), released/unlocked accessors never hold the mark back, nesting and hand-over between threads",
+   "One Epoch style (thread-local or Accessor) per case as documented; harness-level shared pointer uses the orders the Epoch tests use."),
+ "C10": E1c("5/C10", "every reclaimer exactly once, never while a region that was open at retire time is still open, not later than the return of stop()/destructor, retire blocks on a full queue without loss",
+   "Retirers hold no region; every retire() has returned before stop() is called."),
+ "C11": E2c("5/C11", "predicted size == bytes produced for every output presentation, parse(serialize(v)) == v for every input presentation, struct <-> protobuf agreement for documented-compatible kinds, hostile bytes: termination without sanitizer report and success => serialize/parse fixpoint",
+   "Value family declared in the harness; protobuf compatibility only for the kinds the docs mark compatible; debug and NDEBUG builds."),
+ "C12": E2c("5/C12", "element-wise equality with std::vector / std::string after every operation, size <= constructed <= capacity, capacity never shrinks, element lifetime registry, logical clear == fresh object, accessors valid across re-creation, zero space growth once capacity converged",
+   "std::vector / std::string are the reference models; standard preconditions (iterators inside the container, no self-range assign)."),
+ "C13": E1c("5/C13", "each suspension resumed exactly once on its executor (frame canaries, running/done flags), awaited values, empty optional iff cancel() returned true, wake_one/wake_all counts and conservation, non-matching wait does not suspend, exact DepositBox occupancy before/after",
+   "Harness executors derived from babylon::Executor so that global quiescence can be awaited; plain accesses inside babylon are only interleaved at atomic operations and post-write points."),
+ "C14": BOTH("5/C14", "no id with two holders, reuse before mint at quiescence, for_each == live set, thread ids unique among live threads and recycled, one taker per deposit, stale ids never match after any number of reuses",
+   "Thread-id oracles are relative to the live set at case start (the allocator is process-wide and persists across cases)."),
+ "C15": E1c("5/C15", "every consumer receives every item exactly once in publication order with complete payload, end marker after close(), batch items contiguous, clear() gives a fresh topic, no lost wake-up",
+   "close() only after all publishers were joined (documented precondition); each Consumer object is used by one thread."),
+ "C16": E1c("5/C16", "each item consumed exactly once, per-producer order, consume function never in two places, execute() != 0 only after a refused launch, join() returns and covers everything submitted before it",
+   "FlakyExecutor refuses a finite generated set of launch attempts; the known join() finding is excluded by its recorded guard (see known_findings.json)."),
+ "C17": E1c("5/C17", "page / object owned by at most one party (registry over a never-reusing root allocator), upstream never sees a double or foreign free, conservation at quiescence and after destruction, strict pool bound and blocked pop resumes, recycler once per returned object",
+   "set_batch_size is always called; pages come from a per-case arena that never reuses addresses."),
+ "C18": E2c("5/C18", "std::unordered_set/map driven by the same operation sequence: size, empty, membership, iteration as a multiset, first-inserted mapped values",
+   "Sequential histories only (concurrency is C03); generated hash with four spreading modes; the default-constructed fixed table is the documented zero-capacity placeholder."),
+ "C19": E1c("5/C19", "quiescent adder/summer/maxer/miner values exact across thread and instance generations, overlapping reads bounded by completed/started contributions, local() private and stable, for_each covers every slot ever used, for_each_alive == live threads, new counters read zero",
+   "Reads overlapping counting threads interleave only at atomic operations and explicit schedule points (plain accesses are not instrumented): a torn 128-bit summer store cannot be observed."),
+ "C20": BOTH("5/C20", "concatenated iovecs == bytes streamed, every backing page exactly once in the scatter list, nothing outstanding after write/discard (incl. an exhaustively enumerated length range for page sizes 32 and 64); appender: every framed entry exactly once, intact, per-thread order, pages returned",
+   "Entries have >= 1 byte (zero-length is the appender's stop marker); close() after the writers were joined; writev to a memfd is never short."),
 }
 REASON_WIP = "check not built yet in this round (work in progress; see DESIGN.md section 5)"
 
